@@ -101,8 +101,17 @@ def check_case(case):
         return []
     ghost = Residue(None, ResidueAuth("Zz", 9999, None, "G"))
 
+    # naming style per residue, fixed for the whole list: label+auth (own annotation), label only, or auth only (external tools).
+    # (Naming ONE residue in two ways inside one list is outside the property as read here: the library orients and
+    # de-duplicates pairs by the names they carry - see C06 ASSUMPTIONS.)
+    style = [rng.random() for _ in nts]
+
     def res(i):
-        return ghost if i < 0 else Residue(nts[i].label, nts[i].auth)
+        if i < 0:
+            return ghost
+        if nts[i].label is not None and nts[i].auth is not None and style[i] < 0.3:
+            return Residue(nts[i].label, None) if style[i] < 0.15 else Residue(None, nts[i].auth)
+        return Residue(nts[i].label, nts[i].auth)
 
     def saenger(i, j, lw):
         if not with_saenger or i < 0 or j < 0:
@@ -174,9 +183,12 @@ def check_case(case):
         if i < 0 or j < 0:
             continue
         a, c = nts[i], nts[j]
-        if key(a) > key(c):
+        # orientation is that of the names the list carries (Residue order: chain, number, insertion code of the auth
+        # identity if named, else of the label identity) - the class of a row is stated for the lower-named residue first
+        nkey = lambda r_: (r_.chain, r_.number, r_.icode or " ")
+        if nkey(res(i)) > nkey(res(j)):
             a, c, lw = c, a, lw_reverse(lw)
-        elif key(a) == key(c):
+        elif nkey(res(i)) == nkey(res(j)):
             continue
         want.setdefault(lw, set()).add(tuple(sorted((index_of[id(a)], index_of[id(c)]))))
     got = {}
